@@ -231,7 +231,7 @@ PROPS = {
     },
     "C02": {
         "props_file": "Props/C02.v",
-        "theorems": ["c02_key_roundtrip", "c02_key_injective", "c02_name_injective", "c02_at_most_one", "c02_identity", "c02_created_identity", "c02_idempotent"],
+        "theorems": ["c02_key_roundtrip", "c02_key_injective", "c02_name_injective", "c02_at_most_one", "c02_at_most_one_per_uid", "c02_identity", "c02_created_identity", "c02_idempotent"],
         "families": [{"name": "keys", "n_quick": 1500, "n_thorough": 40000}, {"name": "recon", "n_quick": 400, "n_thorough": 12000}],
         "rule": "keys: seeded generator of (key, unix time) pairs and malformed key strings; non-trivial when the call succeeds; distinct by input. recon: histories of 12-60 ops on the real croncontroller.Reconciler + ExecutionControl under reconciler.Controller.work: schedule requests for 5 JobConfig names (dots and dashes) x 5 times with duplicates, out-of-order re-deliveries and malformed keys; JobConfigs created/replaced (new UID)/deleted, with Forbid/maxConcurrency/status.queued limits and templates that themselves carry the schedule-time annotation or the jobconfig-uid label; Job-cache deliveries one at a time; injected server errors and Invalid responses on create; AlreadyExists from the API's name uniqueness; rate-limited re-adds fired at arbitrary points; restarts (queue lost, cache re-listed, requests repeated); Job deletions; active-count and maxEnqueuedJobs changes. Observed after every op: Jobs in the API with identity fields, queue ready/delayed, outcome. non-trivial = more than one Job created; distinct by op list",
         "trusted": ["Coq.Numbers.DecimalString/DecimalZ as the definition of decimal printing (compared with Go's %v / strconv.Atoi by the keys stream)", "the active-job store is a stub returning a history-controlled count; the event recorder is a stub"],
